@@ -177,6 +177,28 @@ var mutations = []mutation{
 		}
 		return true
 	}},
+	{"dup-with-sigs-to-reach-quorum", "duplicate", func(c *caseT, w *world, r *vh.RNG) bool {
+		// one voter only, vote AND signature repeated until the repeated weight would exceed the quorum
+		p, _, _ := target(c, r)
+		if len(p.votes) < 2 || !c.blsOn(p) {
+			return false
+		}
+		for len(p.votes) > 1 {
+			dropVote(c, p, 1)
+		}
+		if len(p.atoms) != 1 || p.votes[0].votes == 0 {
+			return false
+		}
+		need := int(quorumOf(thrOf(c, p), p != &c.cert)/uint64(p.votes[0].votes)) + 1
+		if need > 60 {
+			need = 60
+		}
+		for k := 0; k < need; k++ {
+			p.votes = append(p.votes, p.votes[0])
+			p.atoms = append(p.atoms, p.atoms[0])
+		}
+		return true
+	}},
 	{"replay-other-block", "replay", func(c *caseT, w *world, r *vh.RNG) bool {
 		// signatures were really made by the voters, but for another block hash (same round, index)
 		p, _, _ := target(c, r)
@@ -224,6 +246,9 @@ var mutations = []mutation{
 			return false
 		}
 		if c.blsOn(p) {
+			if len(p.atoms) == 0 {
+				return false
+			}
 			k := r.Intn(len(p.atoms))
 			p.atoms[k].index++
 		} else {
@@ -626,6 +651,9 @@ var mutations = []mutation{
 			if s.online && s.kind() == int(params.KindChamber) && !s.badMain {
 				cand = append(cand, s)
 			}
+		}
+		if len(cand) == 0 {
+			return false
 		}
 		c.reproposer(r, cand[r.Intn(len(cand))], c.cons.pT)
 		return true
